@@ -181,6 +181,21 @@ def run(eng, ctx):
                 # an unguarded body read is right only if a zero size cannot reach it: require the zero-size exit to precede it
                 ctx.bad("C12.D3", dq, f"{norm(e.node)[:40]} is not conditioned on the size", expected="guarded by size != 0 (the terminating zero chunk has no body)", found=guard_text(conj)[:100] or "unconditional", **eng.loc(f, e.node))
 
+    # what is committed to the decoded output is the chunk body that was read (as read, or decompressed)
+    be_out = (info.get("body_end") or {}).get(outv)
+    ends_out = [be_out] if be_out is not None and not info.get("body_dead") else []
+    ends_out += [st.env.get(outv) for k_, st in info.get("ends", []) if st.env.get(outv) is not None]
+    body_terms_ = [c.term for c in consumes if c.term[2][2] == "read"]
+    ncommit = 0
+    for t_ in ends_out:
+        for g_, leaf in leaves(t_):
+            if leaf == ("loop", lid, outv):
+                continue
+            ncommit += 1
+            okc = leaf[0] == "bin" and leaf[1] == "+" and leaf[2] == ("loop", lid, outv) and any(mentions(leaf[3], lambda s_, t=t: s_ == t) for t in body_terms_)
+            ctx.check(okc, "C12.D3", dq, "decoded output extended by the chunk body", expected="out += <the body that was read, possibly decompressed>", found=show(leaf)[:100], **eng.loc(f, info["node"]))
+    ctx.instance("commits to the decoded output", ncommit, 1)
+
     # ---------------- D4 carry-in
     ctx.rule("C12.D4", "receiver: dechunk(partial ‖ data) in that order; both results stored from one call; decoded part appended to the buffer")
     sv = eng.symeval(rv.qualname)
